@@ -28,15 +28,15 @@ _ast_cache = {}
 _ast_lock = threading.Lock()
 
 
-def get_ast(workdir, driver, defines=()):
-    key = (driver, tuple(defines))
+def get_ast(workdir, driver, defines=(), cflags=()):
+    key = (driver, tuple(defines), tuple(cflags))
     with _ast_lock:
         if key in _ast_cache:
             return _ast_cache[key]
     path = os.path.join(VERIF, 'inst', driver)
     t0 = time.time()
     try:
-        obj = dump_ast(path, [INCLUDE, os.path.join(VERIF, 'inst')], defines)
+        obj = dump_ast(path, [INCLUDE, os.path.join(VERIF, 'inst')], defines, extra=cflags)
     except LowerError as e:
         raise Undecided('extraction-broken: ' + str(e))
     ast = AST(obj)
@@ -120,7 +120,10 @@ def expand_spec(spec):
     req = []
     for b in spec.get('buffers', []):
         p, n = b[0], b[1]
-        req.append('__CPROVER_is_fresh(%s, ((__CPROVER_size_t)(%s)) * sizeof(*(%s)))' % (p, n, p))
+        if len(b) > 2:
+            req.append('__CPROVER_is_fresh(%s, ((__CPROVER_size_t)(%s)) * sizeof(%s))' % (p, n, b[2]))
+        else:
+            req.append('__CPROVER_is_fresh(%s, ((__CPROVER_size_t)(%s)) * sizeof(*(%s)))' % (p, n, p))
     for r in spec.get('refs', []):
         req.append('__CPROVER_is_fresh(%s, sizeof(*(%s)))' % (r, r))
     s['requires'] = req + list(spec.get('requires', []))
@@ -207,7 +210,7 @@ def run_job(job, unit, workdir, log=print):
     jd = os.path.join(workdir, safe_name(job['name']))
     os.makedirs(jd, exist_ok=True)
     try:
-        ast = get_ast(workdir, unit['driver'], unit.get('defines', ()))
+        ast = get_ast(workdir, unit['driver'], unit.get('defines', ()), unit.get('cflags', ()))
         specs = {k: expand_spec(v) for k, v in job.get('specs', {}).items()}
         mode = job.get('mode', 'dfcc')
         text, lw = lowered_text(ast, job['roots'], specs, cuts=job.get('cuts', ()))
